@@ -196,8 +196,13 @@ def rule_prefix(model):
     ok_b = False
     for n in own_nodes(b.node):
         if isinstance(n, ast.If) and 'startswith' in norm(n.test):
-            lit = [x.value for x in ast.walk(n.test)
-                   if isinstance(x, ast.Constant)]
+            lit = []
+            for x in ast.walk(n.test):
+                if isinstance(x, ast.Call) and isinstance(
+                        x.func, ast.Attribute) and \
+                        x.func.attr == 'startswith' and x.args:
+                    okf, v = model.fold(x.args[0], b, b.module)
+                    lit.append(v if okf else None)
             w = []
             for x in ast.walk(n):
                 if isinstance(x, ast.Subscript) and \
@@ -395,8 +400,38 @@ def rule_providers(model):
                       f'method `{v}(self, index)`)', node=sv.node)
     # suffix dispatch present
     gi = sv.methods['__getitem__']
-    src = ast.unparse(gi.node)
-    if 'getattr(self, suffix)(' not in src or "prefix + '-index'" not in src:
+
+    def index_key(e, depth=0):
+        # <prefix> + '-index', possibly through a local
+        if isinstance(e, ast.BinOp) and isinstance(e.op, ast.Add) and \
+                isinstance(e.right, ast.Constant) and \
+                e.right.value == '-index':
+            return True
+        if isinstance(e, ast.JoinedStr) and e.values and isinstance(
+                e.values[-1], ast.Constant) and \
+                e.values[-1].value == '-index' and len(e.values) == 2:
+            return True
+        if isinstance(e, ast.Name) and depth < 2:
+            ds = model.local_defs(gi, e.id)
+            return bool(ds) and all(isinstance(d, ast.AST) and
+                                    index_key(d, depth + 1) for d in ds)
+        return False
+    dispatch = False
+    for n in own_nodes(gi.node):
+        if not (isinstance(n, ast.Call) and isinstance(n.func, ast.Call) and
+                isinstance(n.func.func, ast.Name) and
+                n.func.func.id == 'getattr' and len(n.func.args) == 2 and
+                norm(n.func.args[0]) == 'self' and len(n.args) == 1 and
+                not n.keywords):
+            continue
+        a0 = n.args[0]
+        cands = [a0] if not isinstance(a0, ast.Name) else [
+            d for d in model.local_defs(gi, a0.id) if isinstance(d, ast.AST)]
+        if cands and all(isinstance(d, ast.Subscript) and
+                         index_key(d.slice) for d in cands):
+            dispatch = True
+            r.instance(gi.where, n, 'suffix dispatch on the index')
+    if not dispatch:
         r.finding(gi.where, 'suffix dispatch', 'the suffix dispatch '
                   '(method named like the suffix, called with the index) is '
                   'gone', node=gi.node, ctx=gi)
@@ -1113,7 +1148,7 @@ def rule_own_namespace(model):
 
 RULES = [_inl(rule_index), _inl(rule_prefix), _inl(rule_providers),
          _inl(rule_empty),
-         _inl(rule_twins), rule_own_namespace,
+         _inl(rule_twins), _inl(rule_own_namespace),
          rule_pair_predicate, rule_absent_vs_none,
          _inl(rule_skip_scope), rule_prefix_store]
 EXPLANATION = (
